@@ -132,4 +132,9 @@ def units(ctx):
     us += pyvc_units(lazyops.contracts(), 'C15', lazyops.setup)
     us += [contract_unit(c, world_setup=utils.setup_prealloc)
            for c in utils.prealloc_contracts()]
+    from contracts import colls3 as _c3
+    from vlib.pyvc.unit import contract_unit as _cu3
+    us += [_cu3(c, world_setup=_c3.setup)
+           for c in _c3.predicate_contracts() + _c3.wrapper_contracts()
+           if 'C15' in c.serves]
     return us
